@@ -4,6 +4,7 @@ import (
 	"go/constant"
 	"go/token"
 	"go/types"
+	"strings"
 
 	"golang.org/x/tools/go/ssa"
 )
@@ -38,9 +39,26 @@ func constTable(p *Program, g *ssa.Global) *constTab {
 	if initFn == nil {
 		return nil
 	}
+	// the package initialiser and the init() functions it calls
+	isInit := map[*ssa.Function]bool{initFn: true}
+	var initFns []*ssa.Function
+	initFns = append(initFns, initFn)
+	allInstrs(initFn, func(in ssa.Instruction) {
+		if ci, ok := in.(ssa.CallInstruction); ok {
+			if h := ci.Common().StaticCallee(); h != nil && h.Pkg == g.Pkg && strings.HasPrefix(h.Name(), "init#") && !isInit[h] {
+				isInit[h] = true
+				initFns = append(initFns, h)
+			}
+		}
+	})
+	eachInit := func(f func(in ssa.Instruction)) {
+		for _, fn := range initFns {
+			allInstrs(fn, f)
+		}
+	}
 	// no writes outside init: no Store to g, no MapUpdate / IndexAddr-store through a load of g
 	for _, fn := range p.Funcs() {
-		if rootFunc(fn) == initFn {
+		if isInit[rootFunc(fn)] {
 			continue
 		}
 		bad := false
@@ -66,11 +84,16 @@ func constTable(p *Program, g *ssa.Global) *constTab {
 	case *types.Map:
 		// *g = m where m = make(map); m[k] = v ...
 		var m ssa.Value
-		allInstrs(initFn, func(in ssa.Instruction) {
+		nst := 0
+		eachInit(func(in ssa.Instruction) {
 			if st, ok := in.(*ssa.Store); ok && st.Addr == ssa.Value(g) {
 				m = st.Val
+				nst++
 			}
 		})
+		if nst != 1 {
+			return nil
+		}
 		mm, ok := m.(*ssa.MakeMap)
 		if !ok {
 			return nil
@@ -89,7 +112,7 @@ func constTable(p *Program, g *ssa.Global) *constTab {
 	case *types.Array:
 		// stores through &g[i]
 		bad := false
-		allInstrs(initFn, func(in ssa.Instruction) {
+		eachInit(func(in ssa.Instruction) {
 			ia, ok := in.(*ssa.IndexAddr)
 			if !ok || ia.X != ssa.Value(g) {
 				return
